@@ -821,6 +821,10 @@ class _ArraySizeInferInstance(DefaultVisitor):
 
     def _visit_return(self, stmt: ReturnStmt, ctx: None):
         ret_size = self._visit_expr(stmt.expr, ctx)
+        if self._cond_depth > 0:
+            # whatever follows runs only on the executions this return does
+            # not end, so it is conditionally executed from here on
+            self._cond_depth += 1
         if not isinstance(ret_size, ListSize):
             return
         # Across multiple returns, unify: concrete iff all paths agree.
